@@ -5,6 +5,7 @@ import (
 
 	"github.com/ysugimoto/falco/v2/ast"
 	"github.com/ysugimoto/falco/v2/linter/context"
+	"github.com/ysugimoto/falco/v2/linter/types"
 )
 
 // callGraph represents the call relationships between subroutines.
@@ -159,7 +160,7 @@ func extractCalleesFromExpression(expr ast.Expression) []string {
 // detectRecursion checks for cycles in the call graph and reports errors.
 // It detects both self-recursion and mutual recursion.
 // Returns a map of subroutine names involved in cycles for reference.
-func (l *Linter) detectRecursion(graph callGraph, ctx *context.Context) map[string]bool {
+func (l *Linter) detectRecursion(statements []ast.Statement, graph callGraph, ctx *context.Context) map[string]bool {
 	inCycle := make(map[string]bool)
 
 	// For each subroutine, do a DFS to detect if it can reach itself
@@ -194,14 +195,33 @@ func (l *Linter) detectRecursion(graph callGraph, ctx *context.Context) map[stri
 		}
 	}
 
-	// Report errors for each subroutine involved in recursion
+	// Report errors for each subroutine involved in recursion.
+	// The diagnostic is located in the declaration, so the root statements are visited in order
+	// with their ignore comments in effect (the lint pass applies all of the comments again)
+	report := func(name string, sub *types.Subroutine) {
+		l.Error((&LintError{
+			Severity: ERROR,
+			Token:    sub.Decl.GetMeta().Token,
+			Message:  "Subroutine \"" + name + "\" is involved in recursive call which is not allowed in VCL",
+		}).Match(SUBROUTINE_RECURSIVE_CALL))
+	}
+	reported := make(map[string]bool)
+	l.walkRootStatements(statements, func(s ast.Statement) {
+		l.ignore.SetupStatement(s.GetMeta())
+		defer l.ignore.TeardownStatement(s.GetMeta())
+		decl, ok := s.(*ast.SubroutineDeclaration)
+		if !ok || !inCycle[decl.Name.Value] {
+			return
+		}
+		if sub, ok := ctx.Subroutines[decl.Name.Value]; ok && sub.Decl == decl {
+			reported[decl.Name.Value] = true
+			report(decl.Name.Value, sub)
+		}
+	})
+	l.ignore = &ignore{}
 	for name := range inCycle {
-		if sub, ok := ctx.Subroutines[name]; ok {
-			l.Error((&LintError{
-				Severity: ERROR,
-				Token:    sub.Decl.GetMeta().Token,
-				Message:  "Subroutine \"" + name + "\" is involved in recursive call which is not allowed in VCL",
-			}).Match(SUBROUTINE_RECURSIVE_CALL))
+		if sub, ok := ctx.Subroutines[name]; ok && !reported[name] {
+			report(name, sub)
 		}
 	}
 
@@ -212,9 +232,9 @@ func (l *Linter) detectRecursion(graph callGraph, ctx *context.Context) map[stri
 // Starting from Fastly lifecycle subroutines (vcl_recv, vcl_miss, etc.) which have
 // known scopes, it traverses the call graph and assigns inferred scopes to
 // user-defined subroutines.
-func (l *Linter) inferSubroutineScopes(graph callGraph, ctx *context.Context) {
+func (l *Linter) inferSubroutineScopes(statements []ast.Statement, graph callGraph, ctx *context.Context) {
 	// First, detect and report any recursive calls
-	l.detectRecursion(graph, ctx)
+	l.detectRecursion(statements, graph, ctx)
 
 	// Track subroutines with explicit scopes (annotation or name suffix)
 	// These should not have their scope modified by inference
